@@ -5,7 +5,7 @@
    the controllers (so any loss, duplication, reordering, delay), fires either timer, or lets an endpoint say
    anything (contract-abiding or not) — of any length. [run] folds the controllers' real step functions. *)
 From Coq Require Import ZArith List Bool.
-From GV Require Import C42.Model C42.Lemmas C42.InvP C42.InvC C42.Proofs C42.Progress.
+From GV Require Import C42.Model C42.Lemmas C42.InvP C42.InvC C42.Proofs C42.Progress C42.Notices.
 From GV Require C42.Examples.
 Import ListNotations.
 Open Scope Z_scope.
@@ -55,7 +55,17 @@ Proof.
   apply (recover_progress sess W); auto; [apply reach_inv; assumption|apply nn_reach].
 Qed.
 
+(* Confirmation as the producer endpoint sees it: the DeliveryConfirmed notices it was told are exactly the stored
+   messages 1 .. confirmedSeq, each once, in sequence order, when the endpoint asked for them ([notice_list]: number
+   the first confirmedSeq entries of the stored log), and none otherwise. *)
+Theorem C42_confirmed_to_producer_once_in_order : forall sess notify W fx ops,
+  sess <> 0 -> 1 <= W -> forallb legit ops = true ->
+  let s := run (sys_init sess notify W fx) ops in
+  dc_of (toProd s) = notice_list (sP s).
+Proof. intros. apply (reach_notices sess W); assumption. Qed.
+
 Print Assumptions C42_in_order_no_gaps.
 Print Assumptions C42_represented_only_while_in_flight.
 Print Assumptions C42_chain_confirmed_delivered_stored.
 Print Assumptions C42_progress_confirmed_increases.
+Print Assumptions C42_confirmed_to_producer_once_in_order.
